@@ -1,2 +1,26 @@
 import LP.Props.C17
-#print axioms LP.C17_placeholder
+import LP.Props.C17Q
+#print axioms LP.C17_inRingM_iff
+#print axioms LP.C17_range_unique
+#print axioms LP.C17_normalize
+#print axioms LP.C17_normalize_zmod
+#print axioms LP.C17_normalize_id
+#print axioms LP.C17_ring_ops
+#print axioms LP.C17_Z_ops
+#print axioms LP.C17_inv
+#print axioms LP.C17_div_exact
+#print axioms LP.C17_div_exact_Z
+#print axioms LP.C17_divides_iff
+#print axioms LP.C17_divides_prime_iff
+#print axioms LP.C17_divides_Z_iff
+#print axioms LP.C17_sgn_cmp
+#print axioms LP.Dy.C17_dy_normalize
+#print axioms LP.Dy.C17_dy_canonical
+#print axioms LP.Dy.C17_dy_ops
+#print axioms LP.Dy.C17_dy_ops_nonorm
+#print axioms LP.Dy.C17_dy_cmp
+#print axioms LP.Dy.C17_dy_observers
+#print axioms LP.Dy.C17_dy_root
+#print axioms LP.Dy.C17_dy_between
+#print axioms LP.C17_rat_ops
+#print axioms LP.C17_double
